@@ -18,5 +18,6 @@ K12c == [m |-> "mut_shared", z |-> "constnone"]
 A12 == {"readns", "instparam", "classset", "new", "instset", "instmeta", "mutate"}
 A13 == {"readns", "instparam", "classset", "addparam", "new", "instset"}
 A14 == {"classset", "new", "instset", "edit", "instparam"}
+A02 == {"classset", "new", "instset", "instparam", "readns"}
 AAll == A12 \cup A13 \cup A14
 ====
